@@ -25,7 +25,7 @@ import (
 // ref.go over the list of leaves the history really appended.
 
 type c06Op struct {
-	K      string `json:"k"`                // append|bulk|predict|predict1|marshal|reopen|proof|sweep|badargs|grid
+	K      string `json:"k"`                // append|bulk|predict|predict1|marshal|reopen|proof|sweep|badargs|snap|restore|foreign|grid
 	Leaves []ev.B `json:"leaves,omitempty"` // explicit leaf data (append), or 32-byte leaves (predict)
 	N      int    `json:"n,omitempty"`      // bulk/predict: number of derived 32-byte leaves
 	A      uint32 `json:"a,omitempty"`      // selector (tree size n for proofs; variant for reopen)
@@ -45,7 +45,7 @@ var c06EdgeCounts = []int{1, 2, 3, 4, 5, 7, 8, 9, 15, 16, 17, 31, 32, 33, 63, 64
 
 func genC06Op(t *rapid.T) c06Op {
 	k := rapid.SampledFrom([]string{"append", "append", "bulk", "bulk", "bulk", "predict", "predict1", "marshal", "reopen", "reopen",
-		"proof", "proof", "proof", "proof", "proof", "proof", "sweep", "badargs"}).Draw(t, "k")
+		"proof", "proof", "proof", "proof", "proof", "proof", "sweep", "badargs", "snap", "snap", "restore", "restore", "restore", "foreign"}).Draw(t, "k")
 	op := c06Op{K: k}
 	switch k {
 	case "append":
@@ -65,7 +65,11 @@ func genC06Op(t *rapid.T) c06Op {
 	case "reopen":
 		op.A = rapid.Uint32Range(0, 7).Draw(t, "variant")
 		op.B = rapid.Uint32Range(1, 3).Draw(t, "surplus")
-	case "proof", "sweep", "badargs":
+	case "proof", "sweep", "badargs", "restore":
+		op.A = rapid.Uint32().Draw(t, "a")
+		op.B = rapid.Uint32().Draw(t, "b")
+	case "foreign":
+		op.N = rapid.OneOf(rapid.IntRange(0, 3), rapid.IntRange(0, 40), rapid.SampledFrom(c06EdgeCounts)).Draw(t, "n")
 		op.A = rapid.Uint32().Draw(t, "a")
 		op.B = rapid.Uint32().Draw(t, "b")
 	}
@@ -110,6 +114,21 @@ type c06World struct {
 	verifier *merkle.MerkleVerifier
 	derived  int // counter of derived leaves
 	pairs    int
+	// Bookkeeping of what the hash store really holds. UnMarshal into the live object replaces the
+	// compact state but not the store, so after a rollback the store still holds the hashes of the
+	// abandoned leaves and later appends land behind them. storeLH = leaf hashes whose node hashes sit
+	// at their proper post-order positions; valid = length of the common prefix of storeLH and the
+	// tree's current leaves = largest n for which proofs can be expected from the store; frozen = an
+	// append happened while the store was out of step (its write position is wrong from then on).
+	storeLH []H
+	valid   int
+	frozen  bool
+	snaps   []c06Snap
+}
+
+type c06Snap struct {
+	buf  []byte
+	data [][]byte
 }
 
 func u256s(hs []H) []common.Uint256 {
@@ -139,8 +158,96 @@ func (w *c06World) appendLeaf(d []byte) {
 	if p := ev.Catch(func() { w.tree.Append(d) }); p != "" {
 		w.ctx.Failf("Append of leaf %d panicked: %s", w.size(), p)
 	}
+	inStep := !w.frozen && len(w.storeLH) == len(w.data) && w.valid == len(w.data)
 	w.data = append(w.data, d)
 	w.ref.add(d)
+	if w.c.Store != "none" {
+		if inStep {
+			w.storeLH = append(w.storeLH, w.ref.lh[len(w.ref.lh)-1])
+			w.valid++
+		} else {
+			w.frozen = true
+		}
+	}
+}
+
+// snap remembers the compact state and the leaves it stands for (at most 4 snapshots).
+func (w *c06World) snap(what string, slot int) {
+	buf, err := w.tree.Marshal()
+	if err != nil {
+		w.ctx.Failf("%s: Marshal failed: %v", what, err)
+	}
+	sn := c06Snap{buf: append([]byte(nil), buf...), data: append([][]byte(nil), w.data...)}
+	if len(w.snaps) < 4 {
+		w.snaps = append(w.snaps, sn)
+	} else {
+		w.snaps[slot%4] = sn
+	}
+}
+
+// proofLimit: largest tree size for which the hash store can serve proofs of the current leaves.
+func (w *c06World) proofLimit() int {
+	if w.c.Store == "none" {
+		return 0
+	}
+	return w.valid
+}
+
+// adopt makes `data` the expected list of leaves (after a reload of another state into the live tree).
+func (w *c06World) adopt(data [][]byte) {
+	w.data = nil
+	w.ref = newRefTree()
+	for _, d := range data {
+		w.data = append(w.data, append([]byte(nil), d...))
+		w.ref.add(d)
+	}
+	w.valid = 0
+	for w.valid < len(w.data) && w.valid < len(w.storeLH) && w.storeLH[w.valid] == w.ref.lh[w.valid] {
+		w.valid++
+	}
+}
+
+// unmarshalLive loads a compact state into the LIVE tree object (rollback / roll forward / foreign
+// state) and checks everything that does not depend on the hash store against the reference.
+func (w *c06World) unmarshalLive(what string, buf []byte, data [][]byte, rootFirst bool, sel uint32) {
+	ctx := w.ctx
+	if rootFirst {
+		w.tree.Root() // a root is cached in the object
+		ctx.Label("reload:live-unmarshal:root-cached")
+	} else {
+		// no cached root: the last thing the object saw is an append
+		if w.size() < c06MaxSize() {
+			w.appendLeaf(w.nextDerived())
+		}
+		ctx.Label("reload:live-unmarshal:after-append")
+	}
+	var err error
+	if p := ev.Catch(func() { err = w.tree.UnMarshal(append([]byte(nil), buf...)) }); p != "" {
+		ctx.Failf("%s: UnMarshal into the live tree panicked: %s", what, p)
+	}
+	if err != nil {
+		ctx.Failf("%s: UnMarshal of a Marshal output into the live tree failed: %v", what, err)
+	}
+	w.adopt(data)
+	w.checkState(what + " (state loaded into the live tree object)")
+	if lim := w.proofLimit(); lim > 0 {
+		n := lim
+		if n > w.size() {
+			n = w.size()
+		}
+		w.checkPair(int(sel)%n, n)
+		w.checkPair(n-1, n)
+	}
+	// a prediction on the reloaded object
+	var u common.Uint256
+	copy(u[:], derivedLeaf(^w.c.Seed, int(sel%1000)))
+	tmp := newRefTree()
+	tmp.lh = append(tmp.lh, w.ref.lh...)
+	tmp.add(u[:])
+	if got, want := w.tree.GetRootWithNewLeaf(u), tmp.mth(0, tmp.size()); H(got) != want {
+		ctx.Failf("%s: predicted root on the reloaded live tree (size %d) = %x, want %x", what, w.size(), got, want)
+	}
+	w.checkState(what + " (after prediction)")
 }
 
 // checkState: size, root and compact frontier agree with the reference after every step.
@@ -383,6 +490,11 @@ func runC06(ctx *ev.Ctx, c c06Case) {
 			// on start it reopens the file with the persisted size.
 			savedSize := w.tree.TreeSize()
 			savedHashes := append([]common.Uint256(nil), w.tree.Hashes()...)
+			if c.Store == "file" && w.valid != w.size() {
+				// the file does not hold this tree (state of another tree was loaded into the object)
+				ctx.Label("reload:file-skipped-store-holds-other-tree")
+				continue
+			}
 			switch c.Store {
 			case "file":
 				variant := op.A % 8
@@ -423,6 +535,10 @@ func runC06(ctx *ev.Ctx, c c06Case) {
 					w.store.Close()
 				}
 				w.openFileStore(int(savedSize))
+				// reopening positions the file behind the hashes of exactly this tree
+				w.storeLH = append([]H(nil), w.storeLH[:savedSize]...)
+				w.valid = int(savedSize)
+				w.frozen = false
 			case "mem":
 				ctx.Label("reload:mem-newtree")
 			case "none":
@@ -433,14 +549,53 @@ func runC06(ctx *ev.Ctx, c c06Case) {
 			}
 			reloaded = true
 			w.checkState(what)
-			if n := w.size(); n > 0 && c.Store != "none" {
+			if n := minInt(w.size(), w.proofLimit()); n > 0 {
 				w.checkPair(int(op.B)%n, n)
 				w.checkPair(n-1, n)
 			}
+		case "snap":
+			w.snap(what, oi)
+		case "restore":
+			if len(w.snaps) == 0 {
+				ctx.Label("reload:live-unmarshal:no-snapshot-yet")
+				continue
+			}
+			sn := w.snaps[int(op.A)%len(w.snaps)]
+			before := w.size()
+			w.unmarshalLive(what, sn.buf, sn.data, op.B%2 == 0, op.B/2)
+			switch {
+			case len(sn.data) < before:
+				ctx.Label("reload:live-unmarshal:rollback")
+			case len(sn.data) > before:
+				ctx.Label("reload:live-unmarshal:roll-forward")
+			default:
+				ctx.Label("reload:live-unmarshal:same-size")
+			}
+			reloaded = true
+		case "foreign":
+			// compact state of another tree (other leaves, any size incl. empty) loaded into the live object
+			ft := merkle.NewTree(0, nil, nil)
+			var fdata [][]byte
+			for i := 0; i < op.N; i++ {
+				d := derivedLeaf(c.Seed^0x5a5a5a5a, int(op.A%7)*100000+i)
+				ft.Append(d)
+				fdata = append(fdata, d)
+			}
+			buf, _ := ft.Marshal()
+			w.unmarshalLive(what, buf, fdata, op.B%2 == 0, op.B/2)
+			ctx.Label("reload:live-unmarshal:foreign-tree")
+			reloaded = true
 		case "proof", "sweep":
-			n := w.size()
+			n := minInt(w.size(), w.proofLimit())
+			if c.Store == "none" {
+				n = w.size()
+			}
 			if n == 0 {
-				ctx.Label("proof:empty-tree")
+				if w.size() == 0 {
+					ctx.Label("proof:empty-tree")
+				} else {
+					ctx.Label("proof:skipped-store-holds-other-tree")
+				}
 				continue
 			}
 			// half of the proofs are for the current size, half for an earlier size
@@ -503,7 +658,7 @@ func runC06(ctx *ev.Ctx, c c06Case) {
 			ctx.Label("proof:badargs-refused")
 		case "grid":
 			// all (m, n) with n = A mod B over the current tree
-			for n := 1; n <= w.size(); n++ {
+			for n := 1; n <= minInt(w.size(), w.proofLimit()); n++ {
 				if uint32(n)%op.B != op.A%op.B {
 					continue
 				}
@@ -513,6 +668,9 @@ func runC06(ctx *ev.Ctx, c c06Case) {
 			}
 		default:
 			panic("harness: op kind " + op.K)
+		}
+		if oi == 0 {
+			w.snap(what, 0) // the state after the first operation is always available for a later rollback
 		}
 	}
 	if reloaded {
@@ -554,8 +712,9 @@ func TestC06(t *testing.T) {
 		}
 	}
 	ev.Drive(t, "C06",
-		"cases: histories of 1..40 operations (append explicit leaves of 0..70 bytes, bulk append, root prediction with/without commit, "+
-			"marshal/unmarshal, reopen of the hash file incl. surplus hashes of uncommitted appends and truncated files, single proofs, proof sweeps, "+
+		"cases: histories of 2..41 operations (append explicit leaves of 0..70 bytes, bulk append, root prediction with/without commit, "+
+			"marshal/unmarshal into a fresh tree, snapshots and UnMarshal of earlier/later snapshots or of another tree's state into the live tree object "+
+			"(with a cached root / right after an append), reopen of the hash file incl. surplus hashes of uncommitted appends and truncated files, single proofs, proof sweeps, "+
 			"refused arguments) on a file-backed, memory-backed or store-less CompactMerkleTree, plus one exhaustive (m,n) grid case per shard; "+
 			"every step is compared with a recursive RFC 6962 MTH/PATH/PROOF reference and every proof is fed to the node's verifiers. "+
 			"non-trivial: some checked proof has n>=3 with (m,n) not both powers of two, or a reload (unmarshal/reopen) happened; distinct by JSON of the case",
